@@ -26,6 +26,10 @@ pub struct CfgNode {
     pub labels: HashSet<LabelStringToken>,
     /// Which segment is this node in?
     segment: Segment,
+    /// Index of this node in the program (the files as they are pasted into
+    /// each other by includes). Positions inside different files cannot be
+    /// compared, this index can.
+    position: std::cell::Cell<usize>,
     /// CFG nodes that come after this one (forward edges).
     nexts: RefCell<HashSet<Rc<CfgNode>>>,
     /// CFG nodes that come before this one (backward edges).
@@ -88,6 +92,7 @@ impl CfgNode {
             node: RefCell::new(node),
             labels,
             segment,
+            position: std::cell::Cell::new(0),
             nexts: RefCell::new(HashSet::new()),
             prevs: RefCell::new(HashSet::new()),
             function: RefCell::new(HashSet::new()),
@@ -99,6 +104,15 @@ impl CfgNode {
             live_out: RefCell::new(RegisterSet::new()),
             u_def: RefCell::new(RegisterSet::new()),
         }
+    }
+
+    /// Index of this node in program order.
+    pub fn position(&self) -> usize {
+        self.position.get()
+    }
+
+    pub fn set_position(&self, position: usize) {
+        self.position.set(position);
     }
 
     #[must_use]
